@@ -224,7 +224,62 @@ func verbsWorker(w *vf.Worker) {
 			fmt.Sprintf("mlr %s differs from the DSL function applied per field: %s", key, detail),
 			map[string]any{"args": c.args, "put": c.put, "input": input, "verb_stdout": rv.Stdout, "put_stdout": rp.Stdout})
 	}
+	// case -t ("capitalize words"): no DSL function to compare with; asserted per field on values made of
+	// letters and single spaces only, where "title case" leaves no latitude
+	tIdx := uint64(len(cases) + 1)
+	if w.Mine(tIdx) {
+		w.Begin(tIdx)
+		rv := vf.RunMlr([]string{"--ifs", ";", "--ofs", ";", "case", "-t", "-v"}, vf.MlrOpts{Stdin: &input})
+		w.Eval(1)
+		w.Count("calls:verb:case -t", 1)
+		lines := strings.Split(strings.TrimSuffix(rv.Stdout, "\n"), "\n")
+		if !rv.OK() || len(lines) != len(recs) {
+			w.Violation("wrap-run[case]:03:case -t -v", "mlr case -t -v fails: "+rv.String(), nil)
+		} else {
+			for r, l := range lines {
+				fs := strings.Split(l, ";")
+				for f := range fs {
+					if f >= len(recs[r]) {
+						break
+					}
+					in := recs[r][f]
+					want, ok := titleSimple(in)
+					if !ok {
+						w.Count("unconstrained:verb:case -t", 1)
+						continue
+					}
+					w.Eval(1)
+					w.Nontrivial(1)
+					w.Count("asserted:verb:case -t", 1)
+					if got := strings.TrimPrefix(fs[f], verbKeys[f]+"="); got != want {
+						w.Violation(fmt.Sprintf("wrap[case -t]:%02d:%s", len(in), q(in)), fmt.Sprintf("mlr case -t -v turns %s into %s, expected %s (capitalize words)", q(in), q(got), q(want)), map[string]any{"value": in})
+					}
+				}
+			}
+		}
+	}
 	w.Sample(map[string]any{"family": "verbs", "cases": len(cases), "records": len(recs), "example": strings.Join(cases[len(cases)/2].args, " ") + "  ==  put '" + cases[len(cases)/2].put + "'"})
+}
+
+// titleSimple: title case of a value made of letter-only words separated by single spaces.
+func titleSimple(s string) (string, bool) {
+	if s == "" {
+		return "", false
+	}
+	words := strings.Split(s, " ")
+	for i, wd := range words {
+		if wd == "" {
+			return "", false
+		}
+		rs := []rune(wd)
+		for _, r := range rs {
+			if !(r >= 'a' && r <= 'z' || r >= 'A' && r <= 'Z' || r == 'é' || r == '日') {
+				return "", false
+			}
+		}
+		words[i] = strings.ToUpper(string(rs[0])) + strings.ToLower(string(rs[1:]))
+	}
+	return strings.Join(words, " "), true
 }
 
 // ---------------------------------------------------------------- spin: calls that must terminate
